@@ -184,6 +184,77 @@ theorem kernel_operands_unchanged (k : Kernel) (hk : k ∈ effectTable)
   Proofs.Effects.safe_sound_all k (kernels_never_write_operands k hk)
     (kernels_protect_every_parameter k hk) s0 s he tr
 
+/-! ### The op wrappers, their `backward` closures and the `Tensor` methods
+
+`tensorEffectTable` holds one effect program per op wrapper of `functional.py` / `nn/functional.py`
+(the `backward` closure included: closure variables are the wrapper's variables), per method of
+`Tensor` and per constructor of `tensor.py`.  Parameters come in triples `t`, `t.data`, `t._grad`
+plus one `<upstream>`; protected are `t.data` of every parameter (operands, targets, running
+statistics), array-valued parameters themselves, and `<upstream>` — the gradient buffer stored on the
+result when its closure runs (for the root: the copy of the caller's gradient; in `Tensor.backward`
+the caller's `grad.data` is a protected parameter of its own).  `t._grad` is not protected
+(`x._grad += g` is the documented accumulation) but every *re-binding* `t._grad = e` / `t.grad = e`
+is translated with an additional write of `t._grad`, so a re-binding to anything that may share
+memory with an operand's data or with the upstream gradient makes `safe` fail: some later closure
+would accumulate into it.  Likewise `t.data = e` outside the documented running-statistics update. -/
+
+/-- **No wrapper, closure or `Tensor` method writes the data of an operand / target or the upstream
+    gradient, and none re-binds a gradient buffer to memory shared with them.** -/
+theorem wrappers_never_write_data_or_upstream : ∀ k ∈ tensorEffectTable, safe k = true := by
+  decide +kernel
+
+/-- the table is not empty and contains the accumulation writes that are judged -/
+theorem tensoreffecttable_nonempty :
+    100 ≤ tensorEffectTable.length ∧
+    100 ≤ (tensorEffectTable.flatMap (·.body)).countP (fun s => match s with | .write _ => true | _ => false) ∧
+    tensorEffectTable.all (fun k => !k.protectedParams.isEmpty) = true := by
+  decide +kernel
+
+/-- **Operands, targets and the upstream gradient are unchanged by every wrapper / closure / method.**
+    For every entry state in which no protected buffer is shared with a gradient buffer of an
+    operand (`Separated`: gradient buffers are created by `zero_` and by `Tensor.backward` as fresh
+    arrays, and the first theorem shows that nothing ever re-binds them to shared memory) — the
+    protected parameters may alias one another in any way — and every execution. -/
+theorem tensor_operands_unchanged (k : Kernel) (hk : k ∈ tensorEffectTable)
+    (s0 s : State) (he : Entry k s0) (hsep : Separated k s0) (tr : Trace k.body s0 s) :
+    ∀ p ∈ k.protectedParams, ∀ b, s0.env p = some b → s.mem b = s0.mem b :=
+  Proofs.Effects.safe_sound k (wrappers_never_write_data_or_upstream k hk) s0 s he hsep tr
+
+/-- the functions the property names: "clone() and detach() return storage independent of their source" -/
+def freshResultNames : List String := ["clone_forward", "clone", "Tensor.clone", "Tensor.detach"]
+
+/-- **clone / detach return fresh storage** (each name occurs exactly once in the tables, and its
+    result variable can refer to no buffer that existed on entry) -/
+theorem clone_detach_return_fresh :
+    freshResultNames.all (fun n =>
+      ((effectTable ++ tensorEffectTable).filter (fun k => k.name == n)).length == 1 &&
+      ((effectTable ++ tensorEffectTable).filter (fun k => k.name == n)).all returnsFresh) = true := by
+  decide +kernel
+
+/-- … while the view operations do return views (the predicate is not vacuous) -/
+theorem view_ops_return_views :
+    ["reshape_forward", "reshape", "transpose", "slice", "Tensor.numpy", "clone_backward"].all (fun n =>
+      ((effectTable ++ tensorEffectTable).filter (fun k => k.name == n)).any (fun k => !returnsFresh k)) = true := by
+  decide +kernel
+
+/-- **Storage independence of clone / detach**: after any execution from any entry state, the
+    buffer of the result is none of the buffers that existed on entry. -/
+theorem clone_detach_storage_independent (k : Kernel) (hk : k ∈ effectTable ++ tensorEffectTable)
+    (hn : k.name ∈ freshResultNames)
+    (s0 s : State) (he : Entry k s0) (hsep : Separated k s0) (tr : Trace k.body s0 s)
+    (b : Nat) (hr : s.env k.ret = some b) : s0.next ≤ b ∧ ∀ p b', s0.env p = some b' → b' ≠ b := by
+  have hs : safe k = true := by
+    rcases List.mem_append.mp hk with h | h
+    · exact kernels_never_write_operands k h
+    · exact wrappers_never_write_data_or_upstream k h
+  have hf : returnsFresh k = true := by
+    have h := clone_detach_return_fresh
+    rw [List.all_eq_true] at h
+    have h1 := h k.name hn
+    rw [Bool.and_eq_true, List.all_eq_true] at h1
+    exact h1.2 k (List.mem_filter.mpr ⟨hk, by simp⟩)
+  exact Proofs.Effects.returnsFresh_sound k hs hf s0 s he hsep tr b hr
+
 end EffectTable
 
 end Props.C11
